@@ -11,6 +11,7 @@
  * FZ_SKIP: oid33 (OID body with more than 32 arcs), seqint (more INTEGERs than max_nums), tagname (context tags)
  */
 #define FZ_TARGET "fz_asn1"
+#define FZ_DER_PREFIX 2
 #include "fz_common.h"
 #include <gmssl/asn1.h>
 #include <gmssl/oid.h>
